@@ -299,21 +299,27 @@ impl<'a> Parser<'a> {
         // consume string token
         self.advance();
 
-        // read the string, skipping any escape sequences
-        let mut b = value.chars().skip(1);
+        // Since program came from user input, we have to replace escape sequences with their
+        // actual (single-char) value. This is done in a single pass from left to right, so the
+        // outcome of one escape sequence is never taken for the start of another.
         let mut s = String::with_capacity(value.len());
-        for ch in value.chars() {
-            let next = b.next();
-            if ch == '\\' && (next == Some('"') || next == Some('\\')) {
-                continue;
+        let mut chars = value.chars().peekable();
+        while let Some(ch) = chars.next() {
+            let replacement = match (ch, chars.peek()) {
+                ('\\', Some('"')) => Some('"'),
+                ('\\', Some('\\')) => Some('\\'),
+                ('\\', Some('n')) => Some('\n'),
+                ('\\', Some('t')) => Some('\t'),
+                _ => None,
+            };
+            match replacement {
+                Some(r) => {
+                    s.push(r);
+                    chars.next();
+                }
+                None => s.push(ch),
             }
-
-            s.push(ch);
         }
-
-        // Since program came from user input
-        // We have to replace escape sequences with their actual (single-char) value
-        s = s.replace("\\n", "\n").replace("\\t", "\t");
         Expr::String { value: s }
     }
 
